@@ -168,8 +168,8 @@ class NumStr(SpecialStr):
                         return ok(-v)
                     return err(UNIT)
         import re as _re
-        if ty == 'f64' and ctx.ghost.get('exact_f64') and not self.pre and not self.signed and (self.suf or '') in ('', '.5', '.25', '.0625'):
-            den = {'': 1, '.5': 2, '.25': 4, '.0625': 16}[self.suf or '']
+        if ty == 'f64' and ctx.ghost.get('exact_f64') and not self.pre and not self.signed and (self.suf or '') in ('', '.5', '.25', '.0625', '.000244140625'):
+            den = {'': 1, '.5': 2, '.25': 4, '.0625': 16, '.000244140625': 4096}[self.suf or '']
             return ok(ExactF64(self.bv * den + (1 if den > 1 else 0), den))
         if ty == 'f64' and not self.pre and _re.fullmatch(r'\.[0-9]+', self.suf or ''):
             # "<digits>.<digits>": the decimal fraction (exact for the halves / quarters the drivers use)
@@ -335,8 +335,9 @@ class ExactF64:
                 if r.denominator_as_long() == 1 and r.numerator_as_long() > 0:
                     k = r.numerator_as_long()
                     num = self.num * k
-                    lim = z3.BitVecVal((1 << 53) * self.den, 64)
-                    okc = z3.And(z3.BVMulNoOverflow(self.num, z3.BitVecVal(k, 64), False), z3.ULT(num, lim))
+                    # the product, as an exact integer (128 bits), stays below 2^53 * den and inside the 64-bit numerator
+                    wide = z3.ZeroExt(64, self.num) * z3.BitVecVal(k, 128)
+                    okc = z3.And(z3.ULT(wide, z3.BitVecVal(min((1 << 53) * self.den, 1 << 64), 128)))
                     if ctx.check(z3.Not(okc)) != z3.unsat:
                         raise Unmodelled('exact-f64 abstraction: the product may exceed 2^53')
                     return ExactF64(num, self.den)
